@@ -191,8 +191,13 @@ PINNED = ['a\n\n', 'a\n\n\n', '```\ncode\n\n\n', '    code  ', '<div>\nx  ', '~~
 
 def pick(rng, gen):
     if gen is not None and rng.random() < 0.2:
-        return 'generated', gen.generate(rng, profile='full').text
-    kind, text = workloads.mixed(rng)
+        kind, text = 'generated', gen.generate(rng, profile='full').text
+    else:
+        kind, text = workloads.mixed(rng)
+    if rng.random() < 0.06:
+        # characters that text-file tooling likes to treat specially at the very start of a file
+        text = rng.choice(('\ufeff', '\u200b', '\xa0', '\ufeff\ufeff', '\u2060')) + text
+        kind += '+odd-first-char'
     return kind, text
 
 
